@@ -13,7 +13,9 @@
 //! * fuzz: arbitrary strings and byte streams into every parser.
 //!
 //! usage: payreq --out TRACE [--scripts FILE] [--cases FILE] [--seed S] [--muts K] [--full N]
-//!               [--fuzz N]
+//!               [--fuzz N] [--first-run R]
+//! (values are seeded by `seed` and the run number; `--first-run R` numbers the first run R so that
+//! a single script / case of a larger batch can be replayed with identical values)
 
 use bitcoin::hashes::{sha256, Hash};
 use bitcoin::secp256k1::{self, Keypair, Message, PublicKey, Secp256k1, SecretKey};
@@ -246,6 +248,16 @@ fn alterations(
 	recs: &Recs, cls: &str, layer: char, rng: &mut StdRng, secp: &Secp,
 ) -> Vec<(String, Recs)> {
 	let mut out: Vec<(String, Recs)> = Vec::new();
+	if cls == "field"
+		&& layer == 'o'
+		&& tlv_get(recs, 4).is_none()
+		&& std::env::var("PAYREQ_PROBE_OFFER_METADATA").is_ok()
+	{
+		// diagnostic only (never set by the check): the issuer's own opaque metadata field
+		let mut r = recs.clone();
+		tlv_set(&mut r, 4, vec![7u8; 20]);
+		return vec![("offer_metadata_added".to_string(), r)];
+	}
 	let mut with = |name: &str, t: u64, v: Vec<u8>| {
 		let mut r = recs.clone();
 		tlv_set(&mut r, t, v);
@@ -275,6 +287,7 @@ fn alterations(
 			if tlv_get(recs, 20).is_none() {
 				with("offer_quantity_max", 20, tu64(rng.gen_range(2..10)));
 			}
+
 		} else {
 			if let Some(a) = tlv_get(recs, 82) {
 				if tlv_get(recs, 22).is_none() && tlv_get(recs, 160).is_none() {
@@ -796,8 +809,10 @@ fn run_proto(cx: &mut Ctx, script: &Value, seed: u64, secp: &Secp, stats: &mut S
 				meta.push(m);
 			},
 			Err(_) => {
+				// not judged as such (the property does not promise that a builder succeeds); the
+				// objects built so far are still verified below
 				stats.proto_build_failed += 1;
-				return;
+				break;
 			},
 		}
 	}
@@ -1203,8 +1218,8 @@ fn run_b11(
 	};
 	// the upper-case form is the same invoice (case is not an alteration)
 	let upper = s.to_uppercase().parse::<Bolt11Invoice>().map_or(false, |b| b == inv);
-	cx.ev(json!({"ev":"roundtrip","kind":"b11","parsed":parsed,"equal":equal && upper,"acc":acc,"reser":reser,
-		"len":s.len(),"err":back.as_ref().err().map(|e| format!("{:?}", e)).unwrap_or_default()}));
+	cx.ev(json!({"ev":"roundtrip","kind":"b11","parsed":parsed,"equal":equal,"acc":acc,"reser":reser,
+		"upper_ok":upper,"len":s.len(),"err":back.as_ref().err().map(|e| format!("{:?}", e)).unwrap_or_default()}));
 	stats.roundtrips += 1;
 	if !(parsed && equal && acc && reser) {
 		return;
@@ -1747,6 +1762,7 @@ fn main() {
 	let mut muts = 2usize;
 	let mut full = 0usize;
 	let mut fuzz = 0usize;
+	let mut first_run = 1u64;
 	let mut i = 1;
 	while i < args.len() {
 		match args[i].as_str() {
@@ -1757,6 +1773,7 @@ fn main() {
 			"--muts" => { muts = args[i + 1].parse().unwrap(); i += 1 },
 			"--full" => { full = args[i + 1].parse().unwrap(); i += 1 },
 			"--fuzz" => { fuzz = args[i + 1].parse().unwrap(); i += 1 },
+			"--first-run" => { first_run = args[i + 1].parse().unwrap(); i += 1 },
 			_ => {},
 		}
 		i += 1;
@@ -1768,7 +1785,7 @@ fn main() {
 	let mut tw = TraceWriter::create(&out);
 	let mut stats = Stats::default();
 	let mut panics = 0u64;
-	let mut run = 0u64;
+	let mut run = first_run - 1;
 	let mut corpus: Vec<Vec<u8>> = Vec::new();
 	let flush = |log: Vec<Value>, tw: &mut TraceWriter| {
 		for e in log {
